@@ -1,0 +1,45 @@
+//! Child module of `io_uring_backend::provided_buffer_ring` (declared there by one
+//! `#[cfg(rzmq_verif)] #[path] mod` line): read-only view of the ring's private bookkeeping and
+//! a registry of the recycling pools of every ring created in this process (so that the pool of
+//! the live UringWorker's ring can be inspected after a run).
+use super::{BufferPool, ProvidedBufferRing};
+use parking_lot::Mutex;
+use std::sync::{Arc, Weak};
+
+static POOLS: Mutex<Vec<Weak<BufferPool>>> = Mutex::new(Vec::new());
+
+pub(crate) fn register(pool: &Arc<BufferPool>) {
+  POOLS.lock().push(Arc::downgrade(pool));
+}
+
+/// For every ring still alive: (buffers in the free pool, max_pooled, live `PooledChunk`s).
+/// A `PooledChunk` holds one strong reference to the pool; the ring itself holds one.
+pub(crate) fn live_pools() -> Vec<(usize, usize, usize)> {
+  let g = POOLS.lock();
+  g.iter()
+    .filter_map(|w| w.upgrade())
+    .map(|p| {
+      let free = p.free.lock().len();
+      // strong refs: the ring + this temporary upgrade + one per live chunk
+      (free, p.max_pooled, Arc::strong_count(&p).saturating_sub(2))
+    })
+    .collect()
+}
+
+pub(crate) struct RingSnap {
+  pub slots: Vec<Option<usize>>,
+  pub tail: u16,
+  pub free: Vec<usize>,
+  pub max_pooled: usize,
+  pub entry_count: u16,
+}
+
+pub(crate) fn snapshot(r: &ProvidedBufferRing) -> RingSnap {
+  RingSnap {
+    slots: r.slots.borrow().iter().map(|s| s.as_ref().map(|b| b.as_ptr() as usize)).collect(),
+    tail: r.local_tail.get(),
+    free: r.pool.free.lock().iter().map(|b| b.as_ptr() as usize).collect(),
+    max_pooled: r.pool.max_pooled,
+    entry_count: r.entry_count,
+  }
+}
